@@ -65,6 +65,26 @@ CHECKS["C04"] = dict(
    text="Exploration: 9 levels x sub-mode walks, text/913/text in every final sub-mode and parity, digit runs around 13/44/88, byte runs of every length mod 6, UTF-8, length sweep to ~900 codewords; all 929 patterns of all 3 clusters and 100+ (rows, cols) shapes observed in the quick tier.",
    note="TRUSTED DATA: frozen pattern->value snapshot (refdec/pdf417_table.go) admitted after structural-law check; formulas from ISO 15438",
    ref="C04")
+CHECKS["C10"] = dict(
+   technique="acceptance-oracle monitor: independent three-region predicate (must-accept / must-reject / don't-care) evaluated next to every call of all 22 Encode* entry points and AddCheckSum, with panic capture, child-process crash diagnosis (write-ahead log) and CPU-time based hang detection",
+   text="Exploration: boundary-directed inputs (QR version-40 capacity per level x mode from both sides, DataMatrix 1558 codewords per class, Code 128 80 runes, PDF417 totals around 900/928 per level, Aztec forced-binary payloads around every size's capacity) and hostile inputs (every byte value, invalid UTF-8, multi-byte runes, signs/spaces, FNC runes, integer extremes incl. MinInt/MaxInt layers and percentages, all 256 PDF417 level bytes).",
+   note="trusted: the acceptance predicates in props/c10.go; don't-care regions listed in the evidence assumptions",
+   ref="C10")
+CHECKS["C11"] = dict(
+   technique="invariant monitor at the image boundary: every pixel, accessor and the module pattern compared under generated colour schemes against the plain rendering and the decoded structure",
+   text="Exploration: all eleven families x 22 entry points x colour schemes over seven colour models with seed-chosen colours (and the library's predefined schemes) x contents of several size classes; bounds, exactly-two-colours, ColorScheme/ColorModel, scheme-independence of the pattern, Metadata, Content (EAN completed, Code 39/93 expansion).",
+   note="trusted: reference readers for the structural size; expansion tables in refdec/onedim.go",
+   ref="C11")
+CHECKS["C12"] = dict(
+   technique="reference-decoder monitor: declared level / check-codeword counts read back from the pixels and compared with the request",
+   text="Exploration: the C01-C04 case lists re-tagged plus Aztec percentage sweeps (0..MaxInt) at fixed payloads and explicit layers, PDF417 and QR level sweeps; QR format level and ISO block layout, PDF417 indicators' level and 2^(l+1) valid check words, Aztec check bits >= requested percentage of payload bits, DataMatrix ECC 200 count.",
+   note="trusted: reference readers of C01-C04",
+   ref="C12")
+CHECKS["C13"] = dict(
+   technique="reference-decoder monitor + metamorphic API relation (Aztec): decoded symbol size bounded by an independent capacity model at every boundary from both sides",
+   text="Exploration: boundary-directed case lists of C01/C02/C04 plus Aztec payloads around every layer boundary; QR version <= minimal version for the mode, DataMatrix size <= smallest size for the ASCII encodation, every smaller explicit Aztec size is refused, PDF417 pads < one row and shape limits.",
+   note="trusted: capacity formulas in refdec (QR Table 7 via raw-module formula and block table, DataMatrix geometry, Aztec size formula)",
+   ref="C13")
 PENDING = {}
 
 def main():
